@@ -31,7 +31,16 @@ META = dict(
          'outputs, prerequisite satisfaction, and held-task set, and that the '
          'flow counter restored by update_flow_mgr -> FlowMgr.load_from_db '
          'is the highest flow number ever created (flows no longer in the '
-         'pool included), so the next new flow gets an unused number.',
+         'pool included), so the next new flow gets an unused number. '
+         'Obligation resume plays whole runs of fixture run2 through the '
+         'main-loop stand-in vf.sim.Sim (real pool, events manager, sqlite '
+         'database), stops them after a symbolic main-loop pass - optionally '
+         'between job preparation and submission - and again after a second '
+         'symbolic pass, restarts from the database each time (jobs keep '
+         'running meanwhile, as with stop --now), and decides that the '
+         'continued run submits exactly the instances of an uninterrupted '
+         'run, each once and under submit number 1, and ends with an empty '
+         'pool that Scheduler.check_auto_shutdown accepts.',
     note='fixture "basic", two pooled tasks (a@2 with a custom output, b@2 '
          'with a two-atom prerequisite); real sqlite files in a scratch '
          'directory removed on every path; stop modes, broadcasts (C22), '
@@ -55,7 +64,8 @@ META = dict(
     assumptions=['rows are written by the calls the scheduler makes at the '
                  'same events (spawn, state change, output completion, job '
                  'submission)'],
-    outside=['Scheduler-level restart (options, stop modes, parameters)',
+    outside=['Scheduler-level restart (options, parameters); stop without '
+             '--now differs only in waiting for active jobs first',
              'broadcasts (C22)', 'job polling after restart'],
 )
 
@@ -195,12 +205,91 @@ def roundtrip(sa: int, held_a: bool, fl2: bool, sub: int, fwait: bool,
                     extra)
 
 
+CFG2 = fx.cfg('run2')
+
+
+def _resume(choices, x1, x2, stop1, stop2, prep):
+    """A whole run of fixture run2 stopped (stop --now: jobs keep running)
+    after main-loop pass stop1 and again after stop2, restarted from the
+    database each time; prep: the first stop falls between job preparation
+    and job submission of the tasks released in that pass."""
+    from vf.sim import Sim
+    d = tempfile.mkdtemp(prefix='cylc-verif-c19r-')
+    sim = Sim(CFG2, d)
+    try:
+        sim.cold_start()
+        ci = iter(choices)
+        jobs = []                       # Sim.submitted across restarts
+        preps = []
+        for step in range(30):
+            if step == stop1 and prep:
+                sim.auto_submit = False
+            sim.loop()
+            if step in (stop1, stop2):
+                # --- stop --now, then restart from the database
+                jobs += sim.submitted
+                preps += sim.prepared
+                sim.close()
+                sim = Sim(CFG2, d, restart=True)
+                sim.restart()
+                continue
+            act = sim.active()
+            if not act:
+                if any(t.state.status in ('waiting', 'preparing')
+                       and not t.state.is_runahead and t.is_ready_to_run()
+                       for t in sim.pool.get_tasks()):
+                    continue
+                break
+            t = act[next(ci, 0) % len(act)]
+            outs = []
+            if t.tdef.name == 'a' and (x1 if int(t.point) == 1 else x2):
+                outs = ['xx']
+            sim.finish(t, outputs=outs)
+        else:
+            return False
+        jobs += sim.submitted
+        preps += sim.prepared
+        want = {('a', 1), ('a', 2), ('c', 1), ('c', 2), ('b', 2),
+                ('d', 1), ('d', 2), ('e', 1), ('e', 2)}
+        if x1:
+            want.add(('b', 1))
+        ran = [(j[0], j[1]) for j in jobs]
+        if set(ran) != want or len(ran) != len(want):
+            return False              # same instances, each job once
+        if any(j[2] != 1 for j in jobs):
+            return False              # ... under submit number 1
+        if any(p[2] != 1 for p in preps):
+            return False              # re-prepared under the same number
+        return not sim.pool.get_tasks() and sim.can_shutdown()
+    finally:
+        sim.close()
+        shutil.rmtree(d, ignore_errors=True)
+
+
+def resume(c1: int, c2: int, c3: int, c4: int, c5: int, x1: bool, x2: bool,
+           stop1: int, stop2: int, prep: bool) -> bool:
+    """
+    pre: sl(stop1=stop1)
+    pre: 0 <= c1 <= 2 and 0 <= c2 <= 2 and 0 <= c3 <= 2 and 0 <= c4 <= 2
+    pre: 0 <= c5 <= 2 and 0 <= stop1 <= 9 and stop1 < stop2 <= 12
+    pre: SLICE.get('full', True) or (c4 == 0 and c5 == 0 and not x2 and stop2 in (stop1 + 1, 12))
+    post: _
+    """
+    cs = [fork_int(c, 0, 2) for c in (c1, c2, c3, c4, c5)]
+    stop1, stop2 = fork_int(stop1, 0, 9), fork_int(stop2, 1, 12)
+    x1, x2, prep = fork_bool(x1), fork_bool(x2), fork_bool(prep)
+    with concrete():
+        return _resume(cs, x1, x2, stop1, stop2, prep)
+
+
 def OBLIGATIONS(tier):
     big = tier == 'thorough'
     t = 1800 if big else 170
     return [Ob(f'roundtrip[a={ST[s]},extra-flow={int(e)}]', 'roundtrip',
                timeout=t, twin=(s == 0), slice={'sa': s, 'extra': e, 'full': big})
-            for s in range(8) for e in (False, True)]
+            for s in range(8) for e in (False, True)] + [
+        Ob(f'resume[stop1={k}]', 'resume', timeout=t, twin=(k == 0),
+           slice={'stop1': k, 'full': big}) for k in range(10)]
 
 
 def VALIDATE():
@@ -209,4 +298,6 @@ def VALIDATE():
     assert _run(2, True, True, 2, False, True, False, 1, 2, True)
     assert _run(5, False, False, 1, True, False, False, 2, 1, False)
     assert _run(0, False, True, 1, False, False, False, 0, 0, False, True)
-    return n + 4
+    assert _resume([0, 0, 0, 0, 0], False, False, 2, 12, False)
+    assert _resume([1, 2, 0, 1, 0], True, True, 1, 3, True)
+    return n + 6
